@@ -200,6 +200,39 @@ def real_debiasers():
     }
 
 
+def more_debiasers():
+    """name -> factory: the deterministic precipitation debiaser whose fit runs an optimiser (QuantileDeltaMapping pr: censored gamma,
+    Nelder-Mead; fit + ppf only), and running-window debiasers that need the time arrays passed through apply(**kwargs)"""
+    from ibicus.debias import LinearScaling, QuantileDeltaMapping
+
+    yoff = dict(running_window_mode=False, running_window_mode_over_years_of_cm_future=False)
+    rw = dict(running_window_mode=True, running_window_length=31, running_window_step_length=7)
+    return {
+        "pr/QuantileDeltaMapping": lambda: QuantileDeltaMapping.from_variable("pr", **yoff),
+        "rw/DeltaChange": lambda: DeltaChange.from_variable("tas", **rw),
+        "rw/LinearScaling": lambda: LinearScaling.from_variable("tas", **rw),
+    }
+
+
+def pr_grid(nprs, T, nx, ny, a, scale):
+    import scipy.stats
+
+    x = scipy.stats.gamma.rvs(a=a, scale=scale, size=(T, nx, ny), random_state=nprs) / 86400
+    x[nprs.random_sample((T, nx, ny)) < 0.4] = 0.0
+    return x
+
+
+def time_kwargs(starts, lengths):
+    """the time_obs / time_cm_hist / time_cm_future arrays of a case: daily dates from the three (ISO) start dates"""
+    import datetime
+
+    out = {}
+    for key, st, n in zip(("time_obs", "time_cm_hist", "time_cm_future"), starts, lengths):
+        d0 = datetime.date.fromisoformat(st)
+        out[key] = np.array([d0 + datetime.timedelta(days=k) for k in range(n)], dtype=object)
+    return out
+
+
 def tas_grid(nprs, T, nx, ny, mean, dtype=np.float64):
     return (mean + 3.0 * nprs.standard_normal((T, nx, ny))).astype(dtype)
 
@@ -219,5 +252,5 @@ def unpack(d, prefix=""):
 def debiaser_for(case):
     what = str(case.get("what", ""))
     if "/" in what and what.split("/", 1)[0] in ("real", "builtin"):
-        return real_debiasers()[what.split("/", 1)[1]]()
+        return {**real_debiasers(), **more_debiasers()}[what.split("/", 1)[1]]()
     return make(case.get("kind", "deb"))
